@@ -226,7 +226,10 @@ func c06State(R *vr.Result, rng *rand.Rand, id string, sidx int) {
 		{Kind: "future-admin", Text: w.seal("root", true, -60*time.Second)},
 		{Kind: "bitflipped-admin", Text: flip(root)},
 		{Kind: "other-instance-admin", Text: other},
-		{Kind: "admin-flag-True", Text: func() string { _, _, n, c := f.sealToken(fmt.Sprintf("root:True:%d", time.Now().Unix())); return c06enc(n, c) }()},
+		{Kind: "admin-flag-True", Text: func() string {
+			_, _, n, c := f.sealToken(fmt.Sprintf("root:True:%d", time.Now().Unix()))
+			return c06enc(n, c)
+		}()},
 		toks["root"], toks["adm2"], toks["alice"], toks["bob"], toks["carl"], toks["Bob"], toks["ROOT"],
 		{Kind: "forged-self-sealed-admin-for-bob", Text: w.seal("bob", true, 5*time.Second), User: "bob", Admin: true, Valid: true}, // sealed by the instance key: counts as issued (only the test can do this)
 	}
@@ -703,7 +706,6 @@ func (w *c06World) endToEnd(id string) {
 		}
 	}
 }
-
 
 // concurrent: an admin session and ordinary-user sessions (same plaintext length) are used in parallel;
 // an ordinary user's request must never be served with the admin's rights or another user's identity.
